@@ -191,6 +191,7 @@ class Sym:
         self.sym_box = {"L": (0, (1 << 63) - 1)}
         self.b2i = {}        # symbol name -> (op, Poly a, Poly b): the comparison whose truth the 0/1 symbol carries
         self.divrem = {}     # symbol name -> ("div"|"rem", operand Poly, k)
+        self.opsyms = {}     # symbol name -> (op, Poly a, Poly b, width): bit operations / wrapping and saturating subtraction
         self.phis = {}       # symbol name -> [alternative Polys]
         self.phi_defs = {}   # symbol name -> [(defining block, Poly)] when every definition is a whole assignment
         self.sym_terms = {}  # symbol name -> term it stands for (opaque symbols)
@@ -667,6 +668,8 @@ class Sym:
                     if plo is not None and phi_ is not None and tlo is not None and tlo <= plo and phi_ <= thi:
                         return prod
                 nm = "%s(%s,%s)" % (op.lower(), a, b)
+                if nm not in self.opsyms:
+                    self.opsyms[nm] = (op, a, b, (self.bin_type(t[2]) or {}).get("w"))
                 if nm not in self.sym_box:
                     # value ranges of bit operations with a constant operand (unsigned operands)
                     from .prover import poly_interval
@@ -797,10 +800,32 @@ class Sym:
                     blo, bhi = poly_interval(b, {s_: self.sym_box.get(s_, (None, None)) for s_ in b.syms()})
                     hi_ = None if ahi is None else (int(ahi) - (int(blo) if blo is not None and blo > 0 else 0))
                     self.sym_box[nm] = (0, None if hi_ is None else max(0, hi_))
+                    self.opsyms[nm] = ("SatSub", a, b, None)
                     return Poly.sym(nm)
+            if (s.endswith("::div_euclid") or s.endswith("::rem_euclid")) and s.startswith("<impl ") and len(t[2]) == 2:
+                # floor division by a positive constant: div_euclid(a, k) = a / k - [a % k < 0], rem_euclid(a, k) =
+                # a % k + k * [a % k < 0] (Rust's `/` and `%` truncate); the bracket is a 0/1 comparison flag that the
+                # case expansion of accept.case_envs splits, so `if a % k < 0 { a / k - 1 } else { a / k }` is the same
+                a, b = self.poly(t[2][0]), self.poly(t[2][1])
+                if a is not None and b is not None and b.is_const() and b.const_value() > 0:
+                    q = self.poly(("bin", "Div", t[2][0], t[2][1]))
+                    r = self.poly(("bin", "Rem", t[2][0], t[2][1]))
+                    if q is not None and r is not None:
+                        from .prover import poly_interval
+                        alo, _ = poly_interval(a, {s_: self.sym_box.get(s_, (None, None)) for s_ in a.syms()})
+                        if alo is not None and alo >= 0:
+                            return q if s.endswith("div_euclid") else r
+                        nmf = "b2i(%s)" % cmp_to_rel("Lt", r, Poly.const(0))[1]
+                        self.sym_box[nmf] = (0, 1)
+                        self.b2i[nmf] = ("Lt", r, Poly.const(0))
+                        if s.endswith("div_euclid"):
+                            return q - Poly.sym(nmf)
+                        return r + Poly.sym(nmf) * Poly.const(int(b.const_value()))
             if s.endswith("::wrapping_sub") and len(t[2]) == 2:
                 a, b = self.poly(t[2][0]), self.poly(t[2][1])
                 if a is not None and b is not None:
+                    m_w = __import__("re").search(r"impl [ui](\d+|size)>::wrapping_sub", t[1])
+                    self.opsyms["wrapsub(%s,%s)" % (a, b)] = ("WrapSub", a, b, None if not m_w else 64 if m_w.group(1) == "size" else int(m_w.group(1)))
                     return Poly.sym("wrapsub(%s,%s)" % (a, b))
             return Poly.sym(self.name(t))
         if k == "var":
@@ -1407,6 +1432,30 @@ class Sym:
                 rets = closure_ret(self.prog, cb)
                 if len(rets) == 1:
                     body = closure_pred_name(self, cb, subst_upvars(rets[0], cap))
+                # a predicate that is a character / byte class: one spelling for `all(P)`, `!any(!P)`, and for classes
+                # written as `a || b`, by ranges, or as "alphanumeric and not lowercase" (merged in accept.simplify)
+                from .funeval import char_class, class_str
+                cc = char_class(self.prog, cb) if not cap else None
+                if cc is not None:
+                    vals, nonascii = cc
+                    it = self.iter_name(d[2][0])
+                    if nonascii is None:
+                        dom = frozenset(range(256))            # bytes
+                        unit = "bytes"
+                    else:
+                        dom = frozenset(range(128))
+                        unit = "chars"
+                    # all(P) true / any(P) false: every element inside a class; the other two: some element outside
+                    inside = (q == "all" and tr) or (q == "any" and not tr)
+                    cls = vals if q == "all" else dom - vals
+                    na = None if nonascii is None else (nonascii if q == "all" else not nonascii)
+                    if na is False or (na is None and max(cls, default=0) < 128):
+                        # an ASCII-only class: the same constraint whether the string is walked by chars or by bytes
+                        for suf in (".chars", ".bytes"):
+                            if it.endswith(suf):
+                                it = it[:-len(suf)]
+                        unit = "elems"
+                    return [("quant", "within" if inside else "notwithin", it, "%s%s%s" % (unit, class_str(cls), "+nonascii" if na else ""), True)]
             return [("quant", q, self.iter_name(d[2][0]), body, tr)]
         if d[0] == "call" and short(d[1]) in ("RangeInclusive::<Idx>::contains", "Range::<Idx>::contains") and len(d[2]) == 2 and tr:
             # (a..=b).contains(&x)  ==  a <= x && x <= b   (only the positive form is a conjunction)
